@@ -2,7 +2,9 @@
 # usage: tools/try_mutant.sh <patch.diff> <Cxx> [tier]   — applies a seeded change to /repo, runs the check, undoes it
 P="$1"; ID="$2"; TIER="${3:-quick}"
 git -C /repo apply "$P" || { echo "patch does not apply"; exit 9; }
+cp /verif/evidence/$ID.json /verif/.build/evidence_backup_$ID.json 2>/dev/null
 cd /verif && ./check "$ID" --tier "$TIER"; RC=$?
-git -C /repo checkout -- . 
+git -C /repo checkout -- .
+cp /verif/.build/evidence_backup_$ID.json /verif/evidence/$ID.json 2>/dev/null
 echo "mutant-exit=$RC"
 for g in $(cat /verif/tools/goextract/GENERATED.list); do /verif/.build/goextract $g /repo /verif/lean/AggkitModel/Generated/$g.lean; done
